@@ -5,34 +5,37 @@
 //! invariant  weak_streak < 15 and probation <= 3  (re-asserted on the post-state).  Bitrates and
 //! RTTs are drawn from grids (the classifier's arithmetic on them is share = bps*1000/total and
 //! tier comparisons; fully symbolic f64 inputs are not needed to exercise the stateful logic the
-//! property is about).  The real std HashMaps are used with a fixed-key RandomState.
+//! property is about).  The per-link memory lives in srtla-core's `verif-model` container seam (a
+//! four-entry array map with the HashMap surface the classifier uses) because std's hashbrown does
+//! not get through CBMC; native replays are built WITHOUT that feature and run the real HashMap.
 use srtla_core::connection::SrtlaConnection;
 use srtla_core::selection::classifier::{WeakLinkFilter, WeakReason};
 
 use crate::util::*;
 
-pub fn rs_stub() -> std::hash::RandomState {
-    unsafe { core::mem::transmute::<(u64, u64), std::hash::RandomState>((0, 0)) }
-}
-
-const N: usize = 2;
-
 #[derive(Clone, Copy)]
 struct Mem {
+    present: bool,
     prev_weak: bool,
     delay: u32,
     streak: u32,
     probation: u32,
 }
 
+/// Arbitrary per-link memory under the invariant; `present == false` models a link that joined since the last
+/// tick (no memory: every `get` answers None and the classifier falls back to its defaults).
 fn any_mem() -> Mem {
+    let present: bool = kani::any();
     let streak: u32 = kani::any();
     kani::assume(streak < 15);
     let probation: u32 = kani::any();
     kani::assume(probation <= 3);
     let delay: u32 = kani::any();
-    kani::assume(delay <= 1000);
-    Mem { prev_weak: kani::any(), delay, streak, probation }
+    if present {
+        Mem { present, prev_weak: kani::any(), delay, streak, probation }
+    } else {
+        Mem { present, prev_weak: false, delay: 0, streak: 0, probation: 0 }
+    }
 }
 
 fn grid_bps() -> u64 {
@@ -47,6 +50,22 @@ fn grid_bps() -> u64 {
     }
 }
 
+/// Bitrates that put two links summing to 1 Mbit/s exactly on, and one permille below, the N=2 thresholds
+/// (enter 125, leave 375 permille).
+fn boundary_bps() -> u64 {
+    let k: u8 = kani::any();
+    match k % 8 {
+        0 => 124_000,
+        1 => 125_000,
+        2 => 374_000,
+        3 => 375_000,
+        4 => 625_000,
+        5 => 626_000,
+        6 => 875_000,
+        _ => 876_000,
+    }
+}
+
 fn grid_rtt() -> u16 {
     let k: u8 = kani::any();
     match k % 4 {
@@ -57,32 +76,51 @@ fn grid_rtt() -> u16 {
     }
 }
 
-#[kani::proof]
-#[kani::unwind(20)]
-#[kani::stub(std::hash::RandomState::new, rs_stub)]
-fn c17_classify_step() {
-    let bps: [u64; N] = [grid_bps(), grid_bps()];
-    let rtt: [u16; N] = [grid_rtt(), grid_rtt()];
-    let connected: [bool; N] = [kani::any(), kani::any()];
-    let mem: [Mem; N] = [any_mem(), any_mem()];
+fn classify_step<const N: usize, const BOUNDARY: bool>() {
+    let bps: [u64; N] = core::array::from_fn(|_| if BOUNDARY { boundary_bps() } else { grid_bps() });
+    let rtt: [u16; N] = core::array::from_fn(|_| grid_rtt());
+    let connected: [bool; N] = core::array::from_fn(|_| kani::any());
+    let queue: [bool; N] = core::array::from_fn(|_| kani::any());
+    let mem: [Mem; N] = core::array::from_fn(|_| any_mem());
     let conns: [SrtlaConnection; N] = core::array::from_fn(|i| {
         let mut c = SrtlaConnection::new_registering(i as u64 + 1, String::new(), std::net::IpAddr::V4(std::net::Ipv4Addr::LOCALHOST), 0);
         c.connected = connected[i];
         c.vh_bitrate_mut().current_bitrate_bps = bps[i] as f64;
         c.rtt.kalman_rtt = srtla_core::kalman::KalmanFilter::vh_from_parts(rtt[i] as f64, 0.0, [0.0; 4], rtt[i] != 0);
+        // queue-building signal: the recent RTT floor far above the long-term one
+        if queue[i] {
+            c.rtt.rtt_min_fast_ms = 10_000.0;
+        }
         c
     });
+    // the delay signal's second source, read from the real leaf predicate
+    let qb: [bool; N] = core::array::from_fn(|i| conns[i].queue_building_suspected());
     let mut f = WeakLinkFilter::new();
     let mut i = 0;
     while i < N {
-        f.vh_set_memory(i as u64 + 1, mem[i].prev_weak, mem[i].delay, mem[i].streak, mem[i].probation);
+        if mem[i].present {
+            f.vh_set_memory(i as u64 + 1, mem[i].prev_weak, mem[i].delay, mem[i].streak, mem[i].probation);
+        }
         i += 1;
+    }
+    // stale memory of a link that has left since
+    let stale: bool = kani::any();
+    if stale {
+        f.vh_set_memory(N as u64 + 1, kani::any(), kani::any(), kani::any(), kani::any());
     }
 
     let res = f.classify(&conns[..]);
 
-    let total: u64 = (if connected[0] { bps[0] } else { 0 }) + (if connected[1] { bps[1] } else { 0 });
-    let n_conn: u64 = connected[0] as u64 + connected[1] as u64;
+    let mut total: u64 = 0;
+    let mut n_conn: u64 = 0;
+    let mut i = 0;
+    while i < N {
+        if connected[i] {
+            total += bps[i];
+            n_conn += 1;
+        }
+        i += 1;
+    }
     assert!(res.per_link.len() == N, "one verdict per link");
     let bypass = total < 100_000 || n_conn == 0;
     let mut i = 0;
@@ -98,18 +136,29 @@ fn c17_classify_step() {
             assert!(pw1.is_none() && d1.is_none() && s1.is_none() && p1.is_none(), "and the hysteresis memory is cleared");
         } else if connected[i] {
             let m = mem[i];
-            let share = bps[i] * 1000 / total; // exact: grid values
+            let share = bps[i] * 1000 / total; // exact: integers below 2^37, the f64 quotient cannot cross an integer
             let enter = 250 / n_conn;
             let leave = 750 / n_conn;
             let (s1, p1, d1) = (s1.unwrap(), p1.unwrap(), d1.unwrap());
             // invariant preserved
             assert!(s1 < 15 && p1 <= 3, "INV: share-weak streak < 15 and probation <= 3");
-            // delay reasons need the signal on the previous tick too
+            // delay reasons need the signal on this tick AND on the previous one
             if v.weak && (v.reason == WeakReason::HighRtt || v.reason == WeakReason::QueueBuilding) {
                 assert!(m.delay >= 1, "a delay signal must persist for two consecutive ticks before it marks a link weak");
-                assert!(d1 == m.delay + 1, "the streak counts consecutive ticks");
+                assert!(d1 == m.delay.saturating_add(1), "the streak counts consecutive ticks");
+                if v.reason == WeakReason::HighRtt {
+                    assert!(rtt[i] as u32 > res.selected_delay_ms, "HighRtt means the RTT is over the selected tier now");
+                } else {
+                    assert!(qb[i], "QueueBuilding means the queue signal is up now");
+                }
             }
-            assert!(d1 == 0 || d1 == m.delay + 1, "the delay streak either continues or restarts");
+            assert!(d1 == 0 || d1 == m.delay.saturating_add(1), "the delay streak either continues or restarts");
+            if !(rtt[i] as u32 > res.selected_delay_ms) && !qb[i] {
+                assert!(d1 == 0, "the delay streak restarts the moment the signal clears");
+            }
+            if v.weak && v.reason == WeakReason::NoTraffic {
+                assert!(bps[i] == 0, "NoTraffic means no traffic");
+            }
             // probation window
             if m.probation > 0 {
                 assert!(!v.weak, "inside a probation window the link is reported not weak");
@@ -136,20 +185,43 @@ fn c17_classify_step() {
                 if m.prev_weak && !v.weak {
                     assert!(share >= leave, "leaves weak only on reaching three quarters of fair share");
                 }
-                if !m.prev_weak && !v.weak && bps[i] > 0 {
-                    assert!(share >= enter || v.reason == WeakReason::Healthy, "not weak at or above the entering threshold");
-                }
             }
             assert!(pw1 == Some(v.weak), "the verdict is remembered for the next tick's hysteresis");
         }
         i += 1;
     }
     kani::cover!(!bypass && res.per_link[0].weak && res.per_link[0].reason == WeakReason::HighRtt, "weak for sustained high RTT");
+    kani::cover!(!bypass && res.per_link[0].weak && res.per_link[0].reason == WeakReason::QueueBuilding, "weak for a sustained queue signal");
     kani::cover!(!bypass && res.per_link[0].weak && res.per_link[0].reason == WeakReason::LowShare && mem[0].streak == 14, "probation armed");
     kani::cover!(!bypass && mem[0].probation == 2 && connected[0], "inside probation");
     kani::cover!(!bypass && mem[0].prev_weak && !res.per_link[0].weak && mem[0].probation == 0, "left weak through the leave threshold");
-    kani::cover!(bypass && connected[0], "bypass floor");
+    kani::cover!(!bypass && !mem[0].present && res.per_link[0].weak, "a link without memory judged weak (entering threshold)");
+    // instance-specific goals (a cover in a branch that is dead for this instantiation would read as vacuity)
+    let bd = BOUNDARY;
+    kani::cover!(bd || (bypass && connected[0]), "bypass floor");
+    kani::cover!(!bd || (n_conn == 2 && bps[0] * 1000 / total == 125 && !res.per_link[0].weak && !mem[0].prev_weak), "exactly on the entering threshold: not weak");
+    kani::cover!(!bd || (n_conn == 2 && bps[0] * 1000 / total == 124 && res.per_link[0].weak), "one permille under the entering threshold: weak");
+    kani::cover!(!bd || (n_conn == 2 && bps[0] * 1000 / total == 375 && !res.per_link[0].weak && mem[0].prev_weak), "exactly on the leaving threshold: leaves");
+    kani::cover!(!bd || (n_conn == 2 && bps[0] * 1000 / total == 374 && res.per_link[0].weak && mem[0].prev_weak), "one permille under the leaving threshold: stays");
     core::mem::forget(conns);
     core::mem::forget(f);
     core::mem::forget(res);
+}
+
+#[kani::proof]
+#[kani::unwind(6)]
+fn c17_classify_step_n2() {
+    classify_step::<2, false>();
+}
+
+#[kani::proof]
+#[kani::unwind(6)]
+fn c17_classify_step_n2_thresholds() {
+    classify_step::<2, true>();
+}
+
+#[kani::proof]
+#[kani::unwind(6)]
+fn c17_classify_step_n3() {
+    classify_step::<3, false>();
 }
